@@ -15,7 +15,7 @@ func init() {
 			"NOT decided: eventual removal, clock behaviour, races between alteration of a policy and a running retention pass.",
 		Assumptions: commonAssumptions,
 		Technique:   "static analysis: predicate truth-table equivalence over normalised atoms, control-dependence guards, must-precede cuts, argument provenance by canonical definitions",
-		Rules:       "C14.R1 R2 R3 R4",
+		Rules:       "C14.R1 R2 R2b R3 R4",
 	}
 }
 
@@ -99,6 +99,65 @@ func c14(c *an.Ctx) {
 			hd := f.Find(call(r, "services/retention:Service.HandleLocalStorage", "services/retention:Service.HandleSharedStorage"))
 			if !r.Failed() {
 				f.Precedes(r, up, hd, an.OrderOpt{Success: true, Label: "updateDurationInfo(success) ≺ HandleLocalStorage/HandleSharedStorage"})
+			}
+		}
+	}
+	// ---------------------------------------------------------------- R2b
+	{
+		r := c.Rule("C14.R2b", "K-ERRFLOW(chain)+K-ORDER", "duration refresh: a failed poll of the meta service is never swallowed; an open shard/index always takes the refreshed duration (0 = unlimited included)")
+		for _, in := range [][2]string{{"services/retention:Service.updateShardDurationInfo", "GetShardDurationInfo"}, {"services/retention:Service.UpdateIndexDurationInfo", "GetIndexDurationInfo"}} {
+			if f := fn(r, in[0]); f != nil {
+				poll := f.Find(an.MCallNamed(in[1], `^recv\.MetaClient$`))
+				f.FailurePropagates(r, poll, "a failed "+in[1]+" is returned to handle()")
+			}
+		}
+		if f := fn(r, "services/retention:Service.updateDurationInfo"); f != nil {
+			// the result is non-nil whenever one of the two refreshes failed
+			a := f.Find(call(r, "services/retention:Service.updateShardDurationInfo"))
+			b := f.Find(call(r, "services/retention:Service.UpdateIndexDurationInfo"))
+			r.AddSites(a.Len() + b.Len())
+			nilRet := f.Find(an.ReturnsNilErr())
+			if !r.Failed() && (a.Len() != 1 || b.Len() != 1 || nilRet.Len() != 0) {
+				r.Fail(f.Name+": both refreshes reported", c.P.Pos(f.Body.Pos()), "updateDurationInfo must run both refreshes and return their errors (found %d/%d calls, %d literal nil returns)", a.Len(), b.Len(), nilRet.Len())
+			}
+		}
+		type upd struct{ spec, durStore, setter, nilMap string }
+		for _, u := range []upd{
+			{E + ":EngineImpl.UpdateShardDurationInfo", `\.GetDuration\(\)\.Duration$`, "SetDuration", "p1"},
+			{E + ":EngineImpl.UpdateIndexDurationInfo", ``, "SetDuration", "p1"},
+		} {
+			f := fn(r, u.spec)
+			if f == nil {
+				continue
+			}
+			setDur := f.Find(an.MNode("SetDuration(info.DurationInfo.Duration)", func(f *an.Fn, n ast.Node) bool {
+				ce, ok := n.(*ast.CallExpr)
+				if !ok || len(ce.Args) != 1 {
+					return false
+				}
+				cal := an.Callee(f.Info, ce)
+				return cal != nil && cal.Name() == u.setter && f.Canon(ce.Args[0]) == "p0.DurationInfo.Duration"
+			}))
+			parked := f.Find(an.MNode("(*nilMap)[id] = info", func(f *an.Fn, n ast.Node) bool {
+				as, ok := n.(*ast.AssignStmt)
+				if !ok || len(as.Lhs) != 1 {
+					return false
+				}
+				ix, ok := as.Lhs[0].(*ast.IndexExpr)
+				return ok && f.Canon(ix.X) == "*"+u.nilMap
+			}))
+			okRet := f.Find(an.ReturnsNilErr())
+			f.Precedes(r, an.Union(setDur, parked), okRet, an.OrderOpt{Label: "return nil only after the refreshed duration was applied to the index builder (or the info was parked for a not-loaded shard/index)"})
+			if u.durStore != "" {
+				rx := regexp.MustCompile(u.durStore)
+				st := f.Find(an.MNode("shard duration = info.DurationInfo.Duration", func(f *an.Fn, n ast.Node) bool {
+					as, ok := n.(*ast.AssignStmt)
+					if !ok || len(as.Lhs) != 1 || len(as.Rhs) != 1 {
+						return false
+					}
+					return rx.MatchString(f.Canon(as.Lhs[0])) && f.Canon(as.Rhs[0]) == "p0.DurationInfo.Duration"
+				}))
+				f.Precedes(r, an.Union(st, parked), okRet, an.OrderOpt{Label: "return nil only after the refreshed duration was stored in the shard (or parked)"})
 			}
 		}
 	}
